@@ -2,6 +2,13 @@
 """write the one-line 'what it needs in order to manifest' (needs_short) into seeded/*/meta.json; creates meta.json from confirm.json if missing"""
 import json, os
 NEEDS = {
+ "C37-pending-append-keeps-removal": "autoflush off; set/dict collection left unloaded (after commit); a member removed and re-added from the other side of the backref with no flush in between; first read of the collection",
+ "C39-replaced-pending-orphan-no-expunge-cascade": "scalar delete-orphan reference (one-to-one / single_parent many-to-one) whose still-pending value owns further pending objects, replaced before any flush",
+ "C45-merge-autoflush-only-when-new": "merge() into an autoflush session that holds an unflushed delete or primary-key change for the merged identity (or a cascaded member) and no pending new object at all",
+ "C46-composite-partial-expire-kept": "composite() over two or more columns, value already loaded, expire(obj, [one of its columns]) then reading the composite before the column",
+ "C47-postload-queries-skip-autoflush": "selectinload / immediateload query consumed as a stream (yield_per) with pending changes made between two batches",
+ "C48-partial-expire-drops-strong-ref": "pending change on a persistent object, then expire/refresh of *other* attributes, no further change, every reference dropped and gc before the flush (two cooperating edits)",
+ "C49-set-listener-unlink-before-coerce": "assignment that the Mutable type rejects (coerce raises ValueError) caught by the application, then in-place mutation of the surviving old value",
  "C02-construct-params-cachekey-fallback": "cache hit on a Compiled first populated by a statement built with Executable.params(); a later equal-key statement run without any parameters",
  "C02-construct-params-skips-extracted": "cache hit across statements that differ only in an inline literal + execute-time parameter dict with extra (unused) keys",
  "C10-reduce-translated-indexes": "three or more stacked column projections on one CursorResult whose first projection reorders columns",
